@@ -5,7 +5,7 @@ UNITS = ['k', 'kib', 'kb', 'm', 'mib', 'mb', 'g', 'gib', 'gb', 't', 'tib', 'tb',
 OBLIGATIONS = []
 for u in UNITS:
     OBLIGATIONS.append(ob(f'C14.ladder.table.{u}', FS + f'c14_table_{u}', f'the documented unit `{u}` has a rung in parse_filesize, is reached first (not shadowed by an earlier rung) and strips exactly len("{u}") characters', units=['filesize']))
-    OBLIGATIONS.append(ob(f'C14.ladder.mult32.{u}', FS + f'c14_mult32_{u}', f'thorough tier: for all integers n < 2^32 (and n x multiplier < 2^53): the rung reached by `<n>{u}` returns n x the documented multiplier', units=['filesize'], complete=False, bound='n < 2^32', tier='thorough'))
+    OBLIGATIONS.append(ob(f'C14.ladder.mult32.{u}', FS + f'c14_mult32_{u}', f'thorough tier: for all integers n < 2^32 (n < 2^20 for mb / gb / tb, whose repeated decimal multiplications time out beyond that) with n x multiplier < 2^53: the rung reached by `<n>{u}` returns n x the documented multiplier', units=['filesize'], complete=False, bound='n < 2^32 (2^20 for mb, gb, tb)', tier='thorough'))
     OBLIGATIONS.append(ob(f'C14.ladder.mult.{u}', FS + f'c14_mult_{u}', f'for all integers n < 65536: the rung reached by `<n>{u}` returns n x the documented multiplier', units=['filesize'], complete=False, bound='n < 2^16 (u32 takes ~140 s per rung in CBMC; f64 multiplication is bit-blasted)'))
 UM = 'util::verif_kani::'
 for h, d in [('k', 'k / kib / kb in both cases'), ('m', 'm / mib / mb'), ('g', 'g / gib / gb'), ('t', 't / tib / tb'), ('b', 'b and bare numbers'),
@@ -15,4 +15,4 @@ CANARIES = [dict(harness=FS + 'canary_filesize_must_fail', units=['filesize']), 
 ASSUMPTIONS = ['std: to_ascii_lowercase, replace(" ", ""), ends_with, slicing and str::parse::<f64>/<u64> behave as documented (T2)',
                'letter case: the ladder runs on the lower-cased literal (prologue checked by shape)']
 NOT_COVERED = ['fractional literals (f64 parse)', 'Variant::to_int / to_float coercion that calls parse_filesize', 'format_filesize (regex + humansize)', 'rendering monotonicity and round trip']
-HARNESS_TIMEOUT = 900
+HARNESS_TIMEOUT = 1500
